@@ -23,8 +23,8 @@ KINDS = ('whole', 'time', 'space', 'quarters')
 
 def get_universe(key):
     if key not in _U:
-        cname, tgrid, Lt, Lx = key
-        U = universe.rect_universe(cname, tgrid, Lt + 1, Lx + 1)
+        cname, tgrid, Lt, Lx = key[:4]
+        U = universe.rect_universe(cname, tgrid, Lt + 1, Lx + 1, key[4] if len(key) > 4 else '')
         g = curve(cname)
         by = {}
         for k, (m, els) in U.items():
@@ -91,7 +91,7 @@ def chunk(item):
                     out['worst'] = max(out['worst'], err)
                     if not err <= TOL:
                         if len(out['viols']) < 3:
-                            out['viols'].append(('not-additive', {'curve': key[0], 'tgrid': key[1], 'pw_exact': sw, 'split_test': kt, 'split_trial': ks,
+                            out['viols'].append(('not-additive', {'curve': key[0], 'tgrid': key[1], 'pre': key[4] if len(key) > 4 else '', 'pw_exact': sw, 'split_test': kt, 'split_trial': ks,
                                                                   'test': [te.time_interval, te.space_interval], 'trial': [tr.time_interval, tr.space_interval],
                                                                   'whole': float(whole), 'sum': float(s), 'err': err}))
             # virtual children give the same bits as real children
@@ -125,7 +125,7 @@ def history_task(item):
 
 
 UNIV = {'quick': [(c, (0., 1.), 1, 1) for c in CURVES] + [('UnitSquare', (0., 0.3, 1.), 0, 1), ('Circle', (0., 0.125), 0, 1)]
-                 + [('UnitSquare', (0., 2.0**-9), 0, 2), ('Circle', (0., 2.0**-9), 0, 3)],  # very short end time: only seam / corner / neighbour couples survive
+                 + [('UnitSquare', (0., 2.0**-9), 0, 2), ('Circle', (0., 2.0**-9), 0, 3), ('UnitSquare', (0., 1 / 32), 0, 0, 'xs:uneq')],  # very short end time: only seam / corner / neighbour couples survive
         'thorough': [(c, (0., 1.), 1, 2) for c in CURVES] + [(c, (0., 1., 2.), 1, 1) for c in CURVES] + [(c, (0., 0.3, 1.), 1, 1) for c in CURVES]
                     + [(c, (0., 0.125), 0, 2) for c in CURVES]
                     + [('UnitSquare', (0., 2.0**-9), 1, 2), ('Circle', (0., 2.0**-9), 0, 3), ('LShape', (0., 2.0**-9), 0, 2), ('UnitSquare', (0., 2.0**-9, 1.), 0, 2)]}
@@ -137,7 +137,7 @@ def run(ctx):
     for key in UNIV[ctx.tier]:
         g, parents, *_ = get_universe(key)
         N = len(parents)
-        sizes['{} t={} Lt={} Lx={}'.format(*key)] = {'parents': N, 'ordered_pairs': N * N}
+        sizes['{} t={} Lt={} Lx={}'.format(*key[:4]) + (' ' + key[4] if len(key) > 4 else '')] = {'parents': N, 'ordered_pairs': N * N}
         step = max(20, N * N // (ctx.jobs * 4))
         items += [(key, lo, min(N * N, lo + step)) for lo in range(0, N * N, step)]
     res = pmap(chunk, items, ctx.jobs, chunksize=1)
@@ -174,7 +174,7 @@ def run(ctx):
 
 
 def replay(ctx, data):
-    key = (data['curve'], tuple(data['tgrid']), 2, 2)
+    key = (data['curve'], tuple(data['tgrid']), 2, 2) if not data.get('pre') else (data['curve'], tuple(data['tgrid']), 0, 1, data['pre'])
     g, parents, by, orc, SL0, SL1 = get_universe(key)
     te = by[(tuple(data['test'][0]), tuple(data['test'][1]))]
     tr = by[(tuple(data['trial'][0]), tuple(data['trial'][1]))]
